@@ -21,6 +21,11 @@ ACCEPT = [
     ('Lbi_Note="a=b"', ("Lbi", "Note", "a=b")),
     ('Lbi_Note="say "hi" now"', ("Lbi", "Note", 'say "hi" now')),
     ('abc_K="v"', ("abc", "K", "v")),
+    ('Odi_Comment="mode="fine" beam=F2"', ("Odi", "Comment", 'mode="fine" beam=F2')),
+    ('Lbi_Note="x="y""', ("Lbi", "Note", 'x="y"')),
+    ('Lbi_Note="="', ("Lbi", "Note", "=")),
+    ('Lbi_Note="="""', ("Lbi", "Note", '=""')),
+    ('Pds_ProductID="WWDR1.1__D"', ("Pds", "ProductID", "WWDR1.1__D")),
     ('Scs_A_B="x y"', ("Scs", "A_B", "x y")),
 ]
 REJECT = [
@@ -40,7 +45,7 @@ def run(chk, repo):
     )
     chk.trusted = ["stdlib re compiles the literal as at run time", "str.splitlines splits on LF and CRLF alike"]
     chk.rule("C14-S1", "a line is parsed by matching the whole line against entry_re", 1)
-    chk.rule("C14-S2", "grammar witnesses on the regex literal: accepts well-formed entries, rejects malformed ones", 15)
+    chk.rule("C14-S2", "grammar witnesses on the regex literal: accepts well-formed entries (values with spaces, =, quotes and =\" sequences split at the first =\"), rejects malformed ones", 20)
     chk.rule("C14-S3", "error completeness: every malformed line is collected with its line number and raised in one group after the loop", 5)
     chk.rule("C14-S4", "lines come from str.splitlines() of the decoded text", 1)
     chk.rule("C14-S5", "section tables agree (section_names keys == transform_summary transformers keys)", 1)
@@ -68,6 +73,21 @@ def run(chk, repo):
     for text in REJECT:
         mm = method(text)
         chk.require(mm is None, "C14-S2", f"{mod.relpath}:entry_re", f"rejects {text!r}", f"entry_re accepts malformed line {text!r} as {mm.groupdict() if mm else None}", key=f"entry_re:reject:{text}")
+    # bounded-exhaustive on the literal: every value over {x, space, =, "} up to 5 characters, for three keyword shapes
+    import itertools
+    bad = None
+    n_enum = 0
+    for kw in ("K", "A_B", "Key1"):
+        for ln in range(0, 6):
+            for tup in itertools.product('x =\"', repeat=ln):
+                val = "".join(tup)
+                line = f'Odi_{kw}="{val}"'
+                mm = method(line)
+                n_enum += 1
+                if mm is None or mm.groupdict() != {"section": "Odi", "keyword": kw, "value": val}:
+                    bad = bad or (line, mm.groupdict() if mm else None)
+    chk.require(bad is None, "C14-S2", f"{mod.relpath}:entry_re", f"all {n_enum} lines Odi_<kw>=\"<value>\" with values over {{x, space, =, \"}} up to 5 characters split at the first =\" and keep the whole value",
+                f"entry_re parses {bad[0]!r} as {bad[1]}: the keyword/value split is not at the first =\"" if bad else "", key="entry_re:enumeration")
     # parse_line raises ValueError when no match, returns groupdict
     ok_pl = any(isinstance(n, ast.Raise) and "ValueError" in norm(n.exc) for n in pl.own_nodes()) and any(isinstance(n, ast.Return) and "groupdict" in norm(n.value) for n in pl.own_nodes())
     chk.require(ok_pl, "C14-S1", where, "parse_line raises ValueError on a non-match and returns the groups otherwise", "parse_line no longer raises ValueError / returns the groups", key="parse_line:contract")
